@@ -104,6 +104,7 @@ type Run struct {
 	canon bool
 	pools map[*Value][]Value
 	kr    map[*Term]krInfo
+	krBound map[*Term]int64 // upper bounds of the non-negative components behind vf.Dur
 	allSchedules bool
 	schedForks int
 	mapOrderAll bool
@@ -147,7 +148,7 @@ func (m *Machine) newRun(prefix []int64) *Run {
 		reached: map[string]bool{}, assertIDs: map[string]int{},
 		locks: map[*Value]*lockState{}, conds: map[*Value]*condState{}, wgs: map[*Value]*wgState{}, onces: map[*Value]*onceState{},
 		strIDs: map[string]uint64{}, strByID: map[uint64]string{}, opaqueG: map[string]*Value{},
-		funcsHit: map[string]bool{}, pools: map[*Value][]Value{}, kr: map[*Term]krInfo{},
+		funcsHit: map[string]bool{}, pools: map[*Value][]Value{}, kr: map[*Term]krInfo{}, krBound: map[*Term]int64{},
 	}
 	r.nowT = mkBV(64, 1_000_000_000_000) // virtual clock, ns
 	r.mapOrderAll = m.opts.AllMapOrders
